@@ -79,6 +79,10 @@ def program(draw):
     specs = []
     for i in range(n):
         specs.append(draw(class_spec(i, specs)))
+    # one decorator object per (dict, weakref) pair, created once and re-used for every class of the module
+    if draw(st.booleans()):
+        for s in specs:
+            s["shared_decorator"] = True
     return specs
 
 
@@ -91,8 +95,14 @@ def _flags(s):
 
 def emit(specs, slotted: bool) -> str:
     out = ["import dataclasses", "from typelib.py import classes", "CLASSES = []", "ERRORS = []", ""]
+    if slotted and any(s.get("shared_decorator") for s in specs):
+        for d in (True, False):
+            for w in (True, False):
+                out.append(f"_deco_{d}_{w} = classes.slotted(dict={d}, weakref={w})")
     for i, s in enumerate(specs):
         deco = f"@classes.slotted(dict={s['dict']}, weakref={s['weakref']})\n" if slotted else ""
+        if slotted and s.get("shared_decorator"):
+            deco = f"@_deco_{s['dict']}_{s['weakref']}\n"
         base_expr = ""
         if s["base"] == "hand":
             out.append(f"class Hand{i}:\n    __slots__ = ()\n    def hello(self):\n        return 'hi'\n")
@@ -250,6 +260,8 @@ def check_program(specs, col, tag):
             col.label(f"dict={s['dict']},weakref={s['weakref']}")
             if s["poison_before"]:
                 col.label("poison-decoration")
+            if s.get("shared_decorator"):
+                col.label("shared-decorator-object")
         derr = [e for e in s_.ERRORS if e[0] == "decorate"]
         for _, i, msg in derr:
             col.violation("decoration-never-raises", case, f"class #{i} {specs[i]['name']}: {msg}",
